@@ -240,7 +240,10 @@ def ev_agg(name, args, distinct, group, ctx):
     for g, x in ms:
       if not isinstance(x, S):
         raise Unsupported('list of structured values (JSON subtype is lost in SQLite)')
-    return V.agg_list(ms)
+    l = V.agg_list(ms)
+    if getattr(ctx, 'ordered_group', False):
+      l.mode = 'seq'   # rows come out of an ordered source (recursive CTE): array order is row order
+    return l
   if name == 'DISTINCTLISTAGG':
     ms = arg_vals(args[0])
     for g, x in ms:
@@ -266,12 +269,48 @@ def ev_agg(name, args, distinct, group, ctx):
 
 # ------------------------------------------------------------------ queries
 
+def eval_recursive_cte(name, sub, ctx, outer_env):
+  """WITH RECURSIVE name AS (base UNION ALL step): SQLite evaluates the step once per
+  newly produced row.  Unrolled range_bound+1 times; that the recursion has stopped by
+  then is added to the query's assumptions."""
+  core = sub['core']
+  if core[0] != 'union' or len(core[1]) != 2:
+    raise Unsupported('recursive CTE shape')
+  base = eval_select(core[1][0], ctx, outer_env)
+  allslots = list(base.slots)
+  frontier = base
+  for _ in range(ctx.range_bound + 1):
+    saved = ctx.store.get(name)
+    ctx.store[name] = frontier
+    try:
+      nxt = eval_select(core[1][1], ctx, outer_env)
+    finally:
+      if saved is None:
+        ctx.store.pop(name, None)
+      else:
+        ctx.store[name] = saved
+    nxt = Rel(base.cols, nxt.slots)
+    frontier = nxt
+    if not nxt.slots:
+      break
+    allslots.extend(nxt.slots)
+  else:
+    pass
+  # the last computed frontier must be empty for the unrolling to be complete
+  ctx.assumptions.append(NOT(OR(*[g for g, _ in frontier.slots])))
+  allslots = allslots[:len(allslots) - len(frontier.slots)] if frontier.slots else allslots
+  return Rel(base.cols, allslots, ordered=True)
+
+
 def eval_select(q, ctx, outer_env=None):
   saved = None
   if q['with']:
     saved = dict(ctx.store)
     for name, sub in q['with']:
-      ctx.store[name] = eval_select(sub, ctx, outer_env)
+      if q.get('recursive'):
+        ctx.store[name] = eval_recursive_cte(name, sub, ctx, outer_env)
+      else:
+        ctx.store[name] = eval_select(sub, ctx, outer_env)
   try:
     rel = eval_core(q['core'], ctx, outer_env, q)
   finally:
@@ -296,12 +335,15 @@ def eval_core(core, ctx, outer_env, q):
   sel = core[1]
   base_env = Env({}, outer_env)
   combos = [(True, base_env)]
+  ordered_input = False
   for item in sel['from']:
     new = []
     if item[0] == 'table':
       if item[1] not in ctx.store:
         raise Unsupported('unknown table ' + item[1])
       rel = ctx.store[item[1]]
+      if len(sel['from']) == 1 and rel.ordered:
+        ordered_input = True
       for g, env in combos:
         for g2, row in rel.slots:
           gg = AND(g, g2)
@@ -311,6 +353,8 @@ def eval_core(core, ctx, outer_env, q):
     elif item[0] == 'sub':
       for g, env in combos:
         rel = eval_select(item[1], ctx, env)
+        if len(sel['from']) == 1 and rel.ordered:
+          ordered_input = True
         for g2, row in rel.slots:
           gg = AND(g, g2)
           if gg is False:
@@ -354,11 +398,12 @@ def eval_core(core, ctx, outer_env, q):
     slots = []
     for g, env in combos:
       slots.append((g, [V.to_S(ev(e, env, ctx)) for e, _ in sel['items']]))
-    rel = Rel(names, slots)
+    rel = Rel(names, slots, ordered=ordered_input)
     return order_limit(rel, q, ctx, combos)
   if sel['group'] is None:
     # single group, exactly one output row
     group = [(g, env) for g, env in combos]
+    ctx.ordered_group = ordered_input
     # non-aggregate column references outside aggregates are taken from an arbitrary
     # row in SQLite; Logica only emits outer-correlated references there
     rep_env = Env({}, outer_env)
